@@ -7,6 +7,7 @@ pub mod h_scalars;
 pub mod h_derive;
 pub mod h_json;
 pub mod h_text;
+pub mod h_containers;
 
 pub type Body = fn();
 /// harness name -> body (used by the native replay binary)
@@ -16,6 +17,7 @@ pub fn registry() -> Vec<(&'static str, Body)> {
     v.extend(h_derive::registry());
     v.extend(h_json::registry());
     v.extend(h_text::registry());
+    v.extend(h_containers::registry());
     v
 }
 
